@@ -22,7 +22,7 @@ ASSUMPTIONS = [
     "offsets are tied to |a| (b in {0,-7|a|,50|a|}) so that the float32 cast inside estimate_zscore is not the dominant error; tolerances 1e-9 (scale, float64) and 1e-4 (z-scores, float32)",
     "lane-by-lane agreement within 1e-12 relative (scale, float64) / 1e-6 (z-scores)",
 ]
-REQUIRED_OUTCOMES = ["axis/ok", "equivariance/ok", "finite/ok", "finite/zero_scale_lane", "container/ok", "long_lane/ok"]
+REQUIRED_OUTCOMES = ["axis/ok", "equivariance/ok", "finite/ok", "finite/zero_scale_lane", "container/ok", "long_lane/ok", "axis/layout_ok"]
 
 SCALES = ["std", "iqr", "mad", "doublemad", "diffcov", "biweight", "qn", "sn", "gapper"]
 LOCS = ["median", "mean"]
@@ -111,6 +111,7 @@ def run_shard(shard: dict, ctx, res, only=None) -> None:
     long = bool(shard.get("long"))
     for shape in [tuple(sh) for sh in shard.get("shapes", SHAPES)]:
         x = _data(cls, shape, ctx.seed + 1000 * int(shard.get("variant", 0)))
+        x0 = x.copy()
         axes = [None, 0, 1, -1]
         if len(shape) == 1:
             axes = [None, 0, -1]
@@ -131,6 +132,23 @@ def run_shard(shard: dict, ctx, res, only=None) -> None:
                     res.violation({"site": "stats.estimate_zscore", "symptom": f"raised {type(e).__name__}", "scale": sm, "axis": str(axis)}, base, repr(e))
                     continue
                 ok = True
+                if not np.array_equal(x, x0):
+                    res.violation({"site": "stats.estimate_scale/estimate_zscore", "symptom": "the caller's array was modified", "scale": sm}, base, f"shape {shape} axis {axis}")
+                    x = x0.copy()
+                    continue
+                if sc is not None and x.ndim == 2:
+                    # the same logical array in another memory layout (Fortran order, as blocks read from file are) must give the same estimates
+                    try:
+                        scf = np.asarray(stats.estimate_scale(np.asfortranarray(x), sm, axis, keepdims=True), dtype=np.float64)
+                        sct = np.asarray(stats.estimate_scale(x.T, sm, None if axis is None else (1 - (axis % 2)), keepdims=True), dtype=np.float64)
+                    except Exception as e:  # noqa: BLE001
+                        res.violation({"site": "stats.estimate_scale", "symptom": f"raised {type(e).__name__} on a non-contiguous array", "scale": sm}, base, repr(e))
+                        continue
+                    if not np.allclose(scf, sc, rtol=1e-12, atol=1e-300) or not np.allclose(np.sort(sct.ravel()), np.sort(sc.ravel()), rtol=1e-12, atol=1e-300) and axis is not None:
+                        res.violation({"site": "stats.estimate_scale", "symptom": "estimate depends on the memory layout of the array", "scale": sm, "axis": str(axis)}, base,
+                                      f"shape {shape} axis {axis}: C order {sc.ravel()[:3].tolist()} Fortran order {scf.ravel()[:3].tolist()}")
+                        continue
+                    res.outcome("axis/layout_ok")
                 if z.shape != x.shape:
                     res.violation({"site": "stats.estimate_zscore", "symptom": "z-score shape differs from the input", "scale": sm}, base, f"{z.shape} vs {x.shape}")
                     continue
